@@ -31,9 +31,10 @@ FUZZ_RUNS = {"thorough": 15000}     # coverage-guided leg, 8 processes (vlib/fuz
 
 KEYS = ["a", "b", "name", "é", "x y", 'q"k', "items", "self", "back\\slash", "nrow",
         "", "ab", "na", "type", "properties", "features", "id", "bbox"]
-TYPES = ["bool", "int", "float", "str"]
+TYPES = ["bool", "int", "float", "str", "num"]        # num: JSON integers and non-integral numbers under one key
 VALS = {
     "bool": [True, False], "int": [0, 1, -7, 2**53 - 1, -2**40], "float": [0.5, -1.25, 1e300, 2.0, -0.0],
+    "num": [3, 12, 7.25, 3.5, 0, -1, 1e3],
     "str": ["", "a", "é", 'q"q', "l\nm", "日本", " ", "p\u2028q", "n\u0085 x", "s\u2029"],
 }
 TOP_KEYS = ["name", "crs", 'we"ird', "back\\slash", "ünï", "bbox", "x y", "items", "tab\there", "ls\u2028x",
